@@ -226,6 +226,8 @@ pub fn worker_main(args: &[String]) {
         let mut queue: std::collections::VecDeque<Episode> = fam.into();
         while let Some(ep) = queue.pop_front() {
             status.set(1, j);
+            // the CPU budget is per episode, not per family
+            arm_cpu_timer(cpu_budget);
             let out = if ep.isolate {
                 let mut e2 = ep.clone();
                 e2.isolate = false;
